@@ -140,7 +140,7 @@ def implied_vol(ctx: Ctx) -> None:
             m = cls(strike=strike, **extra)
             for s in (-0.3, -0.05, 0.0, 0.05, 0.3):
                 for t in (0.02, 0.25, 1.0, 3.0):
-                    for precision in (1e-4, 1e-6):
+                    for precision in (1e-4, 1e-6, 1e-9):
                         lm = torch.full_like(vols, s)
                         tm = torch.full_like(vols, t)
                         kw = {"log_moneyness": lm, "time_to_maturity": tm}
@@ -165,6 +165,8 @@ def implied_vol(ctx: Ctx) -> None:
                             continue
                         ctx.count((cls.__name__, strike, s, t, precision), n=int(usable.sum()))
                         ctx.skip("implied volatility: price not strictly monotone at float resolution", int((~usable).sum()))
+                        if iv.dtype != vols.dtype:
+                            ctx.violation(f"iv:{cls.__name__}:dtype", f"implied volatility of {vols.dtype} inputs is returned in {iv.dtype}", {"precision": precision})
                         err = (iv - vols).abs()
                         bad = usable & ~(err <= precision * (1 + 1e-9))
                         if bool(bad.any()):
